@@ -40,12 +40,20 @@ def gen_nsfix():
     start = _sq(function_body(eng, r"XSLTEngineImpl::startElement\s*\(\s*const XalanDOMChar\*\s*name\s*\)\s*\{", "XSLTEngineImpl::startElement(name)"))
     need(re.escape("flushPending();m_resultNamespacesStack.pushContext();setPendingElementName(name);"), start,
          "startElement: flushPending, pushContext, setPendingElementName")
+    cp = _sq(function_body(eng, r"XSLTEngineImpl::copyNamespaceAttributes\s*\([^)]*\)\s*\{", "XSLTEngineImpl::copyNamespaceAttributes"))
+    need(re.escape("while(parent!=0&&parent->getNodeType()==XalanNode::ELEMENT_NODE){"), cp, "copyNamespaceAttributes walks the ancestor-or-self elements")
+    need(re.escape("FindStringPointerFunctor(nodeName))==m_attributeNamesVisited.end()){addResultNamespace(*attr,thePendingAttributes,true);m_attributeNamesVisited.push_back(&nodeName);}"),
+         cp, "copyNamespaceAttributes: an attribute name not yet visited is offered and recorded")
+    need(re.escape("parent=parent->getParentNode();}m_attributeNamesVisited.clear();}"), cp,
+         "copyNamespaceAttributes clears the visited names once, after the ancestor walk")
+    facts["copy_ns_walk"] = "visited list kept across the ancestor walk"
     out = HEADER
     out += "(* facts of the namespace fix-up code (translator/gen_nsfix.py) *)\n"
     out += "From Coq Require Import NArith.\n"
     out += "Definition unique_counter_start : N := 0%N.\n"
     out += "Definition unique_counter_step : N := 1%N.        (* m_uniqueNSValue++ inside the loop *)\n"
     out += "Definition unique_loops_while_bound : bool := true.\n"
+    out += "Definition copy_ns_visited_kept_across_ancestors : bool := true.\n"
     out += "Definition xmlns_xml_never_written : bool := true.  (* s_XMLNamespacePrefix == \"xmlns:xml\" *)\n"
     return out, facts
 
